@@ -902,9 +902,14 @@ def rule_PO(run: Run) -> RuleResult:
                         and astu.norm_opts(a0_.args[0]) == astu.param_names(fn)[0] and astu.is_self_attr(a0_.func.value):
                     ok = True
                 res.add(f"{cls.qualname}.keys:set({a}) is a set of present keys", ok, owner.module.relpath, n.lineno, a, nec)
-    # (2) WithOptions filter: kept and (P or C) => C, on all assignments.  The filter is read off the
-    # interpreter's paths (the test under which an inner key is kept), so helpers and local names are
-    # already substituted and the path's own decisions (self.force) are known.
+    # (2) WithOptions filter, on all assignments of its atoms:
+    #       kept and (P or C) => C                            (only keys present in the caller's options are reported)
+    #       C and not (P and F and not merged) => kept        (a key whose value the caller decides is reported)
+    # with P = in the pre-set options, C = in the caller's options, F = force, and merged = "both the pre-set and the caller's value
+    # under the key are sections (dict)": confectioner.mix() does not replace a section by a forced section, it merges the two entry by
+    # entry, so the caller's entries stay visible to whatever reads the section.  The filter is read off the interpreter's paths (the
+    # test under which an inner key is kept), so helpers and local names are already substituted and the path's own decisions
+    # (self.force) are known.
     from .facts import bool_atoms, eval_bool
     from .interp import Frame
     wo = repo.cls("WithOptions")
@@ -915,14 +920,52 @@ def rule_PO(run: Run) -> RuleResult:
         P = f"call:confectioner.templating.dotted_key_exists({EL},Child(options))"
         C = f"call:confectioner.templating.dotted_key_exists({EL},{optp})"
         F = "Child(force)"
+        GP = f"call:confectioner.templating.get_dotted_key({EL},Child(options))"
+        GC = f"call:confectioner.templating.get_dotted_key({EL},{optp})"
+        GM = f"call:confectioner.templating.get_dotted_key({EL},call:confectioner.mix({optp},Child(options)))"
+
+        def role(atom: str) -> str:
+            """P / C / F, MP / MC (the pre-set / the caller's value is a section) or EQ (what the wrapped object finds under the key is the
+            pre-set value: nothing of the caller's shows through), '' for anything else."""
+            if atom in (P, C, F):
+                return {P: "P", C: "C", F: "F"}[atom]
+            for g_, r_ in ((GP, "MP"), (GC, "MC")):
+                if atom.startswith(f"call:isinstance({g_},") and "dict" in atom[len(f"call:isinstance({g_},"):]:
+                    return r_
+            if atom in (f"cmp:Eq({GM},{GP})", f"cmp:Eq({GP},{GM})"):
+                return "EQ"
+            return ""
+
+        def merged(asg) -> Optional[bool]:
+            """True / False / None (undecided) — whether the caller's entries merge into the pre-set section under this assignment."""
+            if asg.get("EQ") is not None:
+                return not asg["EQ"]
+            if asg.get("MP") is False or asg.get("MC") is False or asg.get("C") is False or asg.get("P") is False:
+                return False
+            if asg.get("MP") is True and asg.get("MC") is True:
+                return True
+            return None
+
+        def consistent(asg) -> bool:
+            if asg.get("MP") and asg.get("P") is False:
+                return False        # a value that is a section is there
+            if asg.get("MC") and asg.get("C") is False:
+                return False
+            if asg.get("EQ") is False and (asg.get("C") is False or asg.get("P") is False or asg.get("F") is False):
+                return False        # without the caller's entry (or without forcing) the pre-set value is what is found
+            return True
+
         bad: List[str] = []
         n_filters = 0
         shown = ""
         for p_ in normal(run.paths(wo, op)):
             flt = [e for e in p_.events if e.kind == "filter" and e.args and e.args[0].key() == EL]
-            known = {k: v for k, v in Frame.atoms(p_.conds).items() if k in (P, C, F)}
+            known = {}
+            for k_, v_ in Frame.atoms(p_.conds).items():
+                if role(k_):
+                    known[role(k_)] = v_
             if not flt:
-                if P not in known and C not in known:
+                if "P" not in known and "C" not in known:
                     if isinstance(p_.ret, Coll) or EL in p_.ret.key():
                         bad.append("a path returns the inner keys without filtering the pre-set ones")
                     continue
@@ -931,41 +974,58 @@ def rule_PO(run: Run) -> RuleResult:
                 kept = EL in p_.ret.key()
                 shown = shown or "explicit loop over the inner keys"
                 for pv, cv, fv in itertools.product([False, True], repeat=3):
-                    asg = {P: pv, C: cv, F: fv}
-                    if any(asg[k] != v for k, v in known.items()):
+                    asg = dict(known)
+                    asg.update({"P": pv, "C": cv, "F": fv})
+                    if any(asg[k] != v for k, v in known.items()) or not consistent(asg):
                         continue
+                    mg = merged(asg)
                     # the path must have decided everything the verdict depends on
-                    if kept and (pv or cv) and not cv and (C in known or P not in known or known.get(P)):
+                    if kept and (pv or cv) and not cv and ("C" in known or "P" not in known or known.get("P")):
                         bad.append(f"kept although absent from the caller's options (pre-set={pv}, caller={cv}, force={fv})")
-                    if cv and not (pv and fv) and not kept and C in known and (P in known) and (not pv or F in known):
+                    if cv and not (pv and fv) and not kept and "C" in known and ("P" in known) and (not pv or "F" in known):
                         bad.append(f"dropped although the caller's value decides it (pre-set={pv}, caller={cv}, force={fv})")
+                    if cv and pv and fv and not kept and mg is not False and {"C", "P", "F"} <= set(known):
+                        bad.append("dropped although the caller's entries are merged into the forced pre-set section (pre-set=True, caller=True, force=True, both sections)")
                 continue
             n_filters += len(flt)
             atoms_: List[str] = []
             for e in flt:
                 bool_atoms(e.target, atoms_)
             shown = " and ".join(e.text for e in flt)
-            unknown = [a_ for a_ in atoms_ if a_ not in (P, C, F)]
+            unknown = [a_ for a_ in atoms_ if not role(a_)]
             if unknown:
                 bad.append(f"filter uses unrecognised atoms {[u[:80] for u in unknown]}")
                 continue
-            for pv, cv, fv in itertools.product([False, True], repeat=3):
-                asg = {P: pv, C: cv, F: fv}
-                if any(asg[k] != v for k, v in known.items()):
+            roles_used = sorted({role(a_) for a_ in atoms_} | set(known) | {"P", "C", "F"})
+            by_role = {}
+            for a_ in list(atoms_) + [P, C, F]:
+                by_role.setdefault(role(a_), []).append(a_)
+            for vals_ in itertools.product([False, True], repeat=len(roles_used)):
+                asg = dict(zip(roles_used, vals_))
+                if any(asg[k] != v for k, v in known.items()) or not consistent(asg):
                     continue
-                vals = [eval_bool(e.target, asg) for e in flt]
+                term_asg = {a_: asg[r_] for r_, as_ in by_role.items() for a_ in as_}
+                vals = [eval_bool(e.target, term_asg) for e in flt]
                 kept = all(v is True for v in vals)
+                pv, cv, fv = asg["P"], asg["C"], asg["F"]
+                mg = merged(asg)
                 # inner keys are present in the mixed options: P or C
                 if kept and (pv or cv) and not cv:
                     bad.append(f"kept although absent from the caller's options (pre-set={pv}, caller={cv}, force={fv})")
                 # a key the caller's value decides must be kept: C and not (P and F)
                 if cv and not (pv and fv) and not kept:
                     bad.append(f"dropped although the caller's value decides it (pre-set={pv}, caller={cv}, force={fv})")
+                # ... and so must a forced pre-set section into which the caller's section is merged
+                if cv and pv and fv and not kept and mg is not False:
+                    bad.append("dropped although the caller's entries are merged into the forced pre-set section (pre-set=True, caller=True, force=True, both sections)")
         if n_filters == 0 and not bad:
             bad.append("no filter over the inner keys found")
         res.add(f"labrea.option.WithOptions.{op}:pre-set keys filtered", not bad, wo.module.relpath, fn.lineno,
-                f"filter `{shown}` checked on the assignments of (in pre-set, in caller, force) compatible with each path" + (f"; failing: {sorted(set(bad))[:3]}" if bad else ""),
-                nec + "; and a key whose value the caller decides must not be dropped (stale cache hit, C01)")
+                f"filter `{shown}` checked on the assignments of (in pre-set, in caller, force, pre-set is a section, caller's is a section) compatible with each path"
+                + (f"; failing: {sorted(set(bad))[:3]}" if bad else ""),
+                nec + "; and a key whose value the caller decides must not be dropped (stale cache hit, C01) — including a forced pre-set section, which "
+                "confectioner.mix() merges with the caller's section entry by entry instead of replacing it")
+    # (how the two dictionaries are combined — confectioner.mix with its default, merging treatment of sections — is R-MX's obligation)
     return res
 
 
